@@ -22,7 +22,7 @@ class Join(Harness):
         self.name = f"C05.{kind}.{'+'.join(keykinds)}{'.vs.' + '+'.join(rightkinds) if rightkinds else ''}{'.renamed' if renamed else ''}{'.sameleft' if sameleft else ''}.{na}x{nb}"
         self.bounds = {"left rows": f"0..{na}", "right rows": f"0..{nb}", "key dtypes": [KIND_DTYPE[k] for k in keykinds],
                        "right key dtypes": [KIND_DTYPE[k] for k in self.rightkinds],
-                       "keys named differently on the two sides": renamed,
+                       "keys named differently on the two sides": (self.renamed and "pairs written as tuples and as lists"),
                        "payload": "left: float64 + row id; right: float64 + int64 + row id"}
         self.symbolic = ["all key and payload cells on both sides"]
         self.choice_dims = ["left nrow", "right nrow"]
@@ -37,7 +37,9 @@ class Join(Harness):
             by.append([an, bn] if self.renamed else an)
         A["pa"] = mk_col("f", na, "pa"); A["ra"] = rid_col(na)
         B["pb"] = mk_col("f", nb, "pb"); B["pi"] = mk_col("i", nb, "pi"); B["rb"] = rid_col(nb)
-        return {"a": Frame(A), "b": Frame(B), "kind": self.kind, "by": by}
+        inp = {"a": Frame(A), "b": Frame(B), "kind": self.kind, "by": by}
+        if self.renamed: inp["pair_form"] = choice("pair_form", ["tuple", "list"])   # both spellings of a key pair are accepted
+        return inp
     def _keys(self, inp):
         A, B = inp["a"], inp["b"]
         ka = [A.cols[x if isinstance(x, str) else x[0]] for x in inp["by"]]
